@@ -239,6 +239,37 @@ def rule_reader(ctx, rule):
                 th = visit(node['inner'][1])
                 el = visit(node['inner'][2]) if len(node['inner']) > 2 and node['inner'][2].get('kind') else [[]]
                 return [p_ + b for p_ in pre for b in th + el]
+            if k == 'SwitchStmt':
+                body_ = node['inner'][-1]
+                items_ = body_.get('inner', []) if body_.get('kind') == 'CompoundStmt' else [body_]
+                flat = []       # (is_label_start, statement)
+                for it in items_:
+                    x = it
+                    first = False
+                    while x.get('kind') in ('CaseStmt', 'DefaultStmt'):
+                        first = True
+                        x = x['inner'][-1]
+                    flat.append((first, x))
+                alts_ = []
+                has_default = any(it.get('kind') == 'DefaultStmt' or (it.get('kind') == 'CaseStmt' and any(y.get('kind') == 'DefaultStmt' for y in cfront.walk(it))) for it in items_)
+                for i_, (first, x) in enumerate(flat):
+                    if not first:
+                        continue
+                    run = []
+                    for first2, y in flat[i_:]:
+                        if y.get('kind') == 'BreakStmt':
+                            break
+                        run.append(y)
+                        if y.get('kind') == 'CompoundStmt' and y.get('inner') and y['inner'][-1].get('kind') in ('BreakStmt', 'ReturnStmt', 'GotoStmt', 'ContinueStmt'):
+                            break
+                        if y.get('kind') in ('ReturnStmt', 'GotoStmt', 'ContinueStmt'):
+                            break
+                    alts_ += seq(run)
+                if not has_default:
+                    alts_.append([])
+                return alts_ or [[]]
+            if k == 'BreakStmt':
+                return [[]]
             if k == 'ForStmt':
                 m_ = 1
                 c_ = node['inner'][2]
@@ -265,6 +296,32 @@ def rule_reader(ctx, rule):
         alts = consumed_paths(block)
         return alts[0] if alts else []
 
+    def switch_runs(body_):
+        """statement runs of a switch body, one per group of labels, each up to its break / goto / return (fall-through kept)"""
+        items_ = body_.get('inner', []) if body_.get('kind') == 'CompoundStmt' else [body_]
+        flat = []
+        for it in items_:
+            x = it
+            first = False
+            while x.get('kind') in ('CaseStmt', 'DefaultStmt'):
+                first = True
+                x = x['inner'][-1]
+            flat.append((first, x))
+        runs = []
+        for i_, (first, x) in enumerate(flat):
+            if not first:
+                continue
+            run = []
+            for first2, y in flat[i_:]:
+                run.append(y)
+                if y.get('kind') in ('BreakStmt', 'ReturnStmt', 'GotoStmt', 'ContinueStmt'):
+                    break
+                if y.get('kind') == 'CompoundStmt' and y.get('inner') and y['inner'][-1].get('kind') in ('BreakStmt', 'ReturnStmt', 'GotoStmt', 'ContinueStmt'):
+                    break
+            runs.append(run)
+        return runs
+    switch_bodies = {id(x['inner'][-1]) for x in walk(cfront.body(fn)) if x.get('kind') == 'SwitchStmt'}
+
     def has_goto_next(block):
         for e in walk(block):
             if e.get('kind') == 'GotoStmt':
@@ -282,7 +339,26 @@ def rule_reader(ctx, rule):
         return res
 
     body = cfront.body(fn)
+    # locals that name a size (const size_t size_p = field.size/7)
+    sizes = {}
+    for d in walk(body):
+        if d.get('kind') == 'VarDecl' and 'init' in d and ('size_t' in cfront.qtype(d) or 'int' in cfront.qtype(d)):
+            init = [c for c in d.get('inner', []) if c.get('kind') not in ('FullComment',)]
+            if init and 'field.size' in render(init[-1]):
+                sizes[d['name']] = render(strip(init[-1], casts=True))
+    work = []
     for blk in innermost_blocks(body):
+        if id(blk) in switch_bodies:
+            # the statements of a switch body belong to different cases: one pseudo-block per case run that ends in a goto
+            for run in switch_runs(blk):
+                if run and (run[-1].get('kind') == 'GotoStmt' or (run[-1].get('kind') == 'CompoundStmt' and run[-1].get('inner') and run[-1]['inner'][-1].get('kind') == 'GotoStmt')):
+                    flat_run = []
+                    for y in run:
+                        flat_run += (y.get('inner', []) if y.get('kind') == 'CompoundStmt' else [y])
+                    work.append({'kind': 'CompoundStmt', 'inner': flat_run, '_line': run[0].get('_line') or blk.get('_line')})
+        else:
+            work.append(blk)
+    for blk in work:
         # skip the EOF / end-of-snapshot gotos (goto finish_fields): they consume nothing by design
         gotos = [s for s in blk.get('inner', []) if s.get('kind') == 'GotoStmt']
         # label name is not in the JSON GotoStmt directly; use the source text
@@ -298,7 +374,8 @@ def rule_reader(ctx, rule):
         line = blk.get('_line')
 
         def exact(reads):
-            return reads == ['field.size'] or (len(reads) == 7 and all(r == '(field.size/7)' for r in reads))
+            reads = [sizes.get(r_, r_) for r_ in reads]
+            return reads == ['field.size'] or (len(reads) == 7 and all(r_.replace(' ', '') in ('(field.size/7)', 'field.size/7') for r_ in reads))
         bad_alts = [a for a in alts if not exact(a)]
         ok = not bad_alts
         reads = bad_alts[0] if bad_alts else alts[0]
